@@ -38,7 +38,7 @@ func rulesC03(w *World, r *Report) {
 	w.ruleLenReader(r, "C03.R2 reader coverage", "binary")
 	w.ruleLookAhead(r, "C03.R3 no dropped look-ahead")
 	w.ruleHeaderSiblings(r, "C03.R4 typed headers read the type through the type reader")
-	w.ruleLiteralTypeNumbered(r, "C03.R4 typed headers read the type through the type reader")
+	w.ruleLiteralTypeNumberedPX(r, "C03.R4 typed headers read the type through the type reader")
 	w.ruleChunkBuffers(r, "C03.R5 chunk length governs the read size")
 	w.ruleLoopExits(r, "C03.R6 variable-length lists end on the terminator", true)
 	w.ruleHolderChange(r, "C03.R6 variable-length lists keep every element")
